@@ -132,6 +132,28 @@ theorem graphFinderWith_hpos (inv : Nat → Adj → Option Adj) (m0 : XZ) (g : G
     · cases e
     · exact (graphFinderTail_spec _ _ _ _ g e).1
 
+/-- **a successful `_graph_finder` means the rows were linearly independent** (for every candidate inverse: the re-check
+    `x_inv @ x.T = I` certifies that the X part after the Hadamards is invertible) -/
+theorem indep_of_gfspec (m0 : XZ) (g : GraphFinderOut) (hs : GFSpec m0 g) : Indep m0 := by
+  -- the X part after the Hadamards spans every unit vector
+  have hus : UnitSpan m0.n (fun i k => hx g.hpos (m0.x i) (m0.z i) k) := by
+    intro j hj
+    obtain ⟨a, b, hab, hu⟩ := hs.full j hj
+    obtain ⟨c, hc⟩ := bspan_coeffs hab
+    refine ⟨c, fun k hk => ?_⟩
+    rw [← hu k hk]
+    simp only [hx]
+    split
+    · exact ((hc k hk).2).symm
+    · exact ((hc k hk).1).symm
+  intro v hv
+  apply unitSpan_indep m0.n _ hus v
+  intro k hk
+  simp only [hx]
+  split
+  · exact (hv k hk).2
+  · exact (hv k hk).1
+
 end S2G
 
 /-! ### any generating set of a graph state -/
